@@ -320,6 +320,7 @@ class SimNet:
         self.transports: List[FakeTransport] = []
         self.trace: List[Sent] = []
         self.arrivals: List[Tuple[float, str, bytes, tuple]] = []  # (ms, host, data, source) as delivered to sockets
+        self.arrival_socks: List[int] = []  # parallel to arrivals: index of the receiving socket
         self.delivered = 0
         # link policy: (sent, src_transport, dst_transport) -> list of one-way delays in us ([] = drop)
         self.policy: Optional[Callable[[Sent, FakeTransport, FakeTransport], List[int]]] = None
@@ -365,6 +366,7 @@ class SimNet:
         if not other.closed:
             self.delivered += 1
             self.arrivals.append((other.loop.now_us / 1000, other.sock.host.name, data, src))
+            self.arrival_socks.append(other.sock.idx)
             other.protocol.datagram_received(data, src)
 
     def inject(self, host: Host, data: bytes, src: tuple, role: str = "any", family: Optional[int] = None) -> None:
@@ -375,6 +377,7 @@ class SimNet:
             if (role == "any" or t.sock.role == role) and t.sock.family == family and not t.closed:
                 self.delivered += 1
                 self.arrivals.append((t.loop.now_us / 1000, host.name, data, src))
+                self.arrival_socks.append(t.sock.idx)
                 try:
                     t.protocol.datagram_received(data, src)
                 except Exception as exc:  # noqa: BLE001 - what a selector transport does: report to the loop
